@@ -398,7 +398,7 @@ PROPAGATING_PATTERNS = {
     "out": [["ok", "xo1", "r", "ok"], ["ok", "xo0", "r="], ["xo1", "r", "r="], ["ok", "r", "xo1", "r"], ["ok", "xo1", "xo1", "r", "ok"],
             ["ok", "xo1", "ok=", "r"], ["ok", "L0", "r"], ["ok", "C3", "r", "ok"], ["ok", "C9", "r"], ["xo0", "xo1=", "r"]],
     "in": [["ok", "xi", "ri", "ok"], ["xi", "ri", "ok"], ["ok", "ri", "xi", "ri"], ["ok", "xo1", "ri", "ok"], ["ok", "L0", "ri"], ["ok", "C0", "ri"],
-           ["ok", "C2", "ri", "ok"], ["ok", "xi", "xi", "ri="]],
+           ["ok", "C2", "ri", "ok"], ["ok", "xi", "xi", "ri="], ["ok", "C3", "ri", "ok"], ["ok", "C4", "ok", "ri"], ["ok", "L1", "ri"], ["ok", "C5", "ri"]],
     "both": [["ok", "xo1", "r", "ri"], ["ok", "xi", "r", "ri"], ["ok", "L0", "r", "ri"], ["ok", "L1", "ri", "r"], ["xo0", "ri", "r"],
              ["ok", "C1", "r", "ri"], ["ok", "C2", "ri", "r"], ["ok", "C4", "r", "ri"], ["ok", "C6", "r"], ["ok", "xo1", "L0", "C3", "r", "ri"]],
 }
